@@ -5,7 +5,7 @@ import atexit
 
 MARK = b"\xffENCODER-MUST-FAIL"
 BADKEY = "WRITE-MUST-FAIL"
-KINDS = ["read_all", "write1", "write2", "fail_body", "fail_encoder", "fail_flush", "fail_end_write", "read_fail_body", "fail_end_read"]
+KINDS = ["read_all", "write1", "write2", "fail_body", "fail_encoder", "fail_flush", "fail_end_write", "read_fail_body", "fail_end_read", "fail_begin_write", "fail_begin_read"]
 TIMEOUT = 5.0
 
 
@@ -50,7 +50,19 @@ def run_session(c, kind: str, keys: list[str], vals: list[bytes]) -> dict:
     res = {"exc": None, "seen": None, "put_ok": [], "acquired": True}
     restore = []
     try:
-        if kind in ("read_all", "read_fail_body", "fail_end_read"):
+        if kind in ("fail_begin_write", "fail_begin_read"):
+            # the backend cannot open its file (deleted / unreadable library): the session never starts
+            attr = "begin_write" if kind == "fail_begin_write" else "begin_read"
+            real = getattr(be, attr)
+
+            def begin():
+                raise InjectedIOError("injected failure while opening the backend file")
+
+            setattr(be, attr, begin)
+            restore.append((attr, real))
+            with (c.writing(timeout=TIMEOUT) if kind == "fail_begin_write" else c.reading(timeout=TIMEOUT)):
+                raise AssertionError("session body reached although begin_* failed")
+        elif kind in ("read_all", "read_fail_body", "fail_end_read"):
             if kind == "fail_end_read":
                 real = be.end_read
 
